@@ -337,3 +337,44 @@ func famMove(bounds map[string]int) []*Scenario {
 	}
 	return out
 }
+
+// famLag: the recreate family with a lagging pod informer cache. The lister starts in one of three views of the re-created pod
+// (still the old incarnation / nothing / the new incarnation) and catches up with the API server at a point chosen by the
+// schedule (thread cache-sync).
+func famLag(cloud bool, bounds map[string]int) []*Scenario {
+	var out []*Scenario
+	for _, c := range []wkClass{{"sts", ""}, {"sts", "immutable"}, {"bare", "never"}} {
+		for _, view := range []string{"old", "none", "new"} {
+			c, view := c, view
+			cfg := cfgOnePool(2, cloud)
+			cfg.Lag = true
+			out = append(out, &Scenario{Name: fmt.Sprintf("lag/%s/lister-shows-%s", c, view), Class: c.String(), Cfg: cfg, Bounds: bounds, Weight: 4,
+				Build: func(w *world.World) []Thread {
+					c.setWorkload(w, 1)
+					p := c.pod(0)
+					w.CreatePod(p)
+					w.SyncAllPodCaches()
+					mustSchedule(w, p.Key())
+					w.SyncAllPodCaches() // the lister knows incarnation A, bound
+					w.DeletePod(p.Key())
+					old := takePending(w)
+					if view == "none" || view == "new" {
+						w.SyncAllPodCaches()
+					}
+					w.CreatePod(p) // incarnation B in the API server
+					if view == "new" {
+						w.SyncAllPodCaches()
+					}
+					return []Thread{
+						{"deliver-old", deliverAll(w, old)},
+						{"sched-new", scheduleRetry(w, p.Key(), 3)},
+						{"cache-sync", func() { w.SyncAllPodCaches() }},
+						{"resync", func() { _ = w.Resync() }},
+					}
+				},
+				Final: func(w *world.World) { w.SyncAllPodCaches(); quiesce(w) },
+			})
+		}
+	}
+	return out
+}
